@@ -508,7 +508,7 @@ M("c17-cached-elements-alias", ["C17"], VM,
   "        def forEach_fn(*args):\n",
   "        elements = arr._elements\n\n        def forEach_fn(*args):\n",
   [("C17", "C17-R8", "field-alias")],
-  more=[(VM, "            for i, elem in enumerate(arr._elements):\n                vm._call_callback(callback, [elem, i, arr])\n            return UNDEFINED\n", "            for i, elem in enumerate(elements):\n                vm._call_callback(callback, [elem, i, arr])\n            return UNDEFINED\n", 1)])
+  more=[(VM, "            for i in range(len(arr._elements)):\n                if i < len(arr._elements):\n                    yield i, arr._elements[i]\n", "            for i in range(len(elements)):\n                if i < len(elements):\n                    yield i, elements[i]\n", 1)])
 M("c02-arrow-forgets-loop-stack", ["C02", "C05", "C07"], CO,
   "        self.loop_stack = old_loop_stack\n        self._pending_labels = old_pending_labels\n        self.source_map = old_source_map\n        self._in_function = old_in_function\n        self._free_vars = old_free_vars",
   "        self._pending_labels = old_pending_labels\n        self.source_map = old_source_map\n        self._in_function = old_in_function\n        self._free_vars = old_free_vars",
@@ -1129,3 +1129,19 @@ M("c17-subarray-buffer-conditionally", ["C17"], VM,
 M("c17-buffer-remainder-ignored", ["C17"], CX,
   "                    if (buffer.byteLength - byte_offset) % element_size:\n", "                    if False:\n",
   [("C17", "C17-R22", "constructor_fn")], note="fix 2188f84 reverted")
+M("c17-foreach-live-iteration", ["C17", "C04"], VM,
+  "            for i, elem in visited_elements():\n                vm._call_callback(callback, [elem, i, arr])\n            return UNDEFINED\n",
+  "            for i, elem in enumerate(arr._elements):\n                vm._call_callback(callback, [elem, i, arr])\n            return UNDEFINED\n",
+  [("C17", "C17-R24", "forEach_fn"), ("C04", "C04-R14", "forEach_fn")], note="fix 1e3d431 reverted for forEach: the loop asks the live list for its next element")
+M("c17-sort-in-place", ["C17", "C04"], VM,
+  "            arr._elements[:] = sorted(arr._elements, key=cmp_to_key(compare_fn))\n", "            arr._elements.sort(key=cmp_to_key(compare_fn))\n",
+  [("C17", "C17-R25", "sort_fn"), ("C04", "C04-R15", "sort_fn")], note="fix c20bcfc reverted: list.sort() raises ValueError when the comparator touches the array")
+M("c06-nan-divided-by-zero", ["C06"], VM,
+  "                if a_num == 0 or a_num != a_num:\n", "                if a_num == 0:\n",
+  [("C06", "C06-R11", "DIV")], note="fix 0bf0637 reverted: NaN / 0 takes the sign decision's else arm")
+M("c06-pow-zero-sign-lost", ["C06"], VA,
+  "    if result == 0:\n        # the sign of a zero result counts ((-0) ** 3 and (-1e-200) ** 3 are -0),\n        # and a host int has no negative zero\n        return result if math.copysign(1, result) < 0 else 0\n", "",
+  [("C06", "C06-R12", "js_pow")], note="fix 18d50b1 reverted")
+M("c13-unary-before-exponent-accepted", ["C13"], PA,
+  "            if self._check(TokenType.STARSTAR):\n                # -2 ** 2 is neither", "            if False:\n                # -2 ** 2 is neither",
+  [("C13", "C13-R13", "unary-before-exponent")], note="fix bf4b913 reverted")
